@@ -266,6 +266,18 @@ def jwxMembers (jwkOK : Bool) : Raw → List (String × J) → Res Raw
     | .err e => .err e
     | .panic p => .panic p
 
+/-- names jwx decodes into typed fields; every other member is a private parameter -/
+def isPrivName (k : String) : Bool :=
+  !(k = "alg" || k = "cty" || k = "kid" || k = "jwk" || k = "crit" || jwxStringMembers.contains k)
+
+/-- the header jwx presents for a protected header with the given members (document order, duplicates kept) -/
+def hdrOfMembers (nSigs : Nat) (members : List (String × J)) (jwkOK jwkPrivate : Bool) (payload : String) (ref : Nat) : Res Hdr :=
+  match jwxMembers jwkOK {} members with
+  | .ok r => .ok { nSigs := nSigs, alg := r.alg, cty := r.cty, hasJwk := r.hasJwk, jwkPrivate := jwkPrivate, kid := r.kid,
+                   priv := r.priv, payload := payload, ref := ref }
+  | .err e => .err e
+  | .panic p => .panic p
+
 /-! ## key resolution (keys.go) and verification (verifier.go) -/
 
 inductive DocRes where
